@@ -7,6 +7,7 @@ import (
 	"encoding/json"
 	"fmt"
 	"regexp"
+	"runtime"
 	"math"
 	"math/big"
 	"os"
@@ -124,7 +125,7 @@ func floatSliceEnds(name string, w []any) ([]any, bool) {
 	changed := false
 	conv := func(v any) any {
 		if n, ok := v.(json.Number); ok {
-			if f, err := n.Float64(); err == nil {
+			if f, err := n.Float64(); err == nil && f != math.Trunc(f) {
 				changed = true
 				return f
 			}
@@ -285,11 +286,23 @@ func builtinJqOracle(ctx *common.Ctx) {
 				if !ctx.Thorough && arity >= 2 && !r.Chance(1, 2) {
 					continue
 				}
-				a := common.CanonOutcome(common.RunCode(cPub, common.DeepCopy(in), 30000, 40))
-				b := common.CanonOutcome(common.RunCode(cShip, common.DeepCopy(in), 30000, 40))
+				oa := common.RunCode(cPub, common.DeepCopy(in), 30000, 40)
+				ob := common.RunCode(cShip, common.DeepCopy(in), 30000, 40)
+				a, b := common.CanonOutcome(oa), common.CanonOutcome(ob)
 				o.Cases++
 				o.Distribution[key]++
 				distinct[key+"|"+a] = true
+				if oa.Budget != ob.Budget {
+					// a budget hit is also what the shared runner's memory watchdog reports: re-run both, alone
+					runtime.GC()
+					oa = common.RunCode(cPub, common.DeepCopy(in), 30000, 40)
+					ob = common.RunCode(cShip, common.DeepCopy(in), 30000, 40)
+					a, b = common.CanonOutcome(oa), common.CanonOutcome(ob)
+					if oa.Budget != ob.Budget && oa.Polls < 30000 && ob.Polls < 30000 {
+						o.Distribution["not-comparable:watchdog"]++
+						continue
+					}
+				}
 				if a != b {
 					ctx.Violate("builtin-jq:"+key, fmt.Sprintf("%s | %s: shipped builtin gives %s, the definition published in builtin.jq gives %s", marshalS(in), callTxt, clipS(b, 300), clipS(a, 300)),
 						map[string]any{"definition": fd.String(), "call": callTxt, "input": marshalS(in), "shipped": b, "published": a,
@@ -559,7 +572,7 @@ func laws() []law {
 			in: func(v any) bool { return isObj(v) && noNaN(v) }, x: func(_, x any) bool { return isObj(x) && noNaN(x) }, judges: []string{"_add"}},
 		{name: "object-deep-merge", a: `. as $v | ($v * $x) as $m | ($m | keys) == (($v | keys) + ($x | keys) | unique) and all(($m | keys)[]; . as $k | $m[$k] == (if ($x | has($k)) | not then $v[$k] elif ($v[$k] | type) == "object" and ($x[$k] | type) == "object" then $v[$k] * $x[$k] else $x[$k] end))`,
 			in: func(v any) bool { return isObj(v) && noNaN(v) }, x: func(_, x any) bool { return isObj(x) && noNaN(x) }, judges: []string{"_multiply"}},
-		{name: "string-repeat", a: `(. * 1) == . and (. * -1) == null and (. * 2) == (. + .) and (2 * .) == (. + .) and (. * 3 | length) == 3 * length`, in: strIn, judges: []string{"_multiply"}},
+		{name: "string-repeat", a: `(. * 1) == . and (. * -1) == null and (. * 2) == (. + .) and (2 * .) == (. + .) and (. * 3 | utf8bytelength) == 3 * utf8bytelength`, in: strIn, judges: []string{"_multiply"}},
 		{name: "setpath-getpath", a: `all(paths as $p | setpath($p; getpath($p)) == .; .)`, in: func(v any) bool { return noNaN(v) }, judges: []string{}},
 		{name: "delpaths-getpath-null", a: `all(paths as $p | delpaths([$p]) | getpath($p) == null or ($p[-1] | type) == "number"; .)`, in: func(v any) bool { return noNaN(v) }},
 		{name: "delpaths-all", a: `delpaths([paths]) == (if type == "array" then [] elif type == "object" then {} else . end)`, in: func(v any) bool { return noNaN(v) }},
